@@ -398,7 +398,15 @@ def classify(unit, meta, run):
     # rlimit / timeouts show up as errors with "Resource limit" messages → handled by `hard`
     if unit.get("no_safe"):
         failed.pop(safe_id, None)   # reachable panics are expected in a unit without preconditions
+    for o, marker in unit.get("needs_rewrite", {}).items():
+        # an obligation that depends on a proof annotation placed by a rewrite rule: when the rule found nothing to
+        # annotate on this tree, a failure of the clause says nothing about the code
+        if o in failed and not any(marker in n for n in meta.get("notes", [])):
+            failed.pop(o)
+            res[o] = dict(status="undecided", detail="the proof annotation this clause depends on could not be placed (rewrite rule did not match)")
     for o in all_ids:
+        if o in res:
+            continue
         if o in failed:
             res[o] = dict(status="failed", detail="\n".join("\n".join(b["lines"]) for b in failed[o]))
         else:
